@@ -726,3 +726,159 @@ ensures
 ''')], ghost_after=[('ntt(tmp_coeffs, points, points.len()).unwrap()', 'let ghost t = tmp_coeffs@;')],
            ghost_before=[('let size_inv', 'let ghost d0 = choose|d0: nat| 1 <= d0 <= MAX_ROOTS && points@.len() == pow2(d0);')])
     return u
+
+
+ROOTPOW = '''
+// ---- nth_root_powers: roots[k] == w_n^k -------------------------------------------------------------------------------------------
+#[verifier::external_body]
+fn usize_try_from_u128_r(x: u128) -> (r: Result<usize, ()>)
+    ensures (x as int <= usize::MAX as int) ==> r == Ok::<usize, ()>(x as usize), (x as int > usize::MAX as int) ==> r is Err
+{ unimplemented!() }
+// the first 2^i entries are the powers of root(i)
+pub open spec fn powers_ok(roots: Seq<Fe>, i: nat) -> bool { forall|k: int| 0 <= k < pow2(i) ==> cong(fe_v(#[trigger] roots[k]), pow(rootv(i as int), k as nat)) }
+proof fn lemma_root_pow_even(i: int, j: nat)
+    requires 1 <= i <= MAX_ROOTS
+    ensures cong(pow(rootv(i - 1), j), pow(rootv(i), 2 * j))
+{
+    let w = rootv(i);
+    axiom_roots(i);
+    lemma_pow1(w); lemma_pow_adds(w, 1, 1);
+    assert(pow(w, 2) == w * w);
+    lemma_pow_multiplies(w, 2, j);
+    lemma_cong_sym(w * w, rootv(i - 1));
+    lemma_cong_pow(rootv(i - 1), w * w, j);
+}
+proof fn lemma_root_pow_half(i: int, j: nat)
+    requires 1 <= i <= MAX_ROOTS
+    ensures cong(-pow(rootv(i), j), pow(rootv(i), j + pow2((i - 1) as nat)))
+{
+    let w = rootv(i); let m = pow2((i - 1) as nat);
+    axiom_roots(i);
+    lemma_pow_adds(w, j, m);
+    lemma_cong_refl(pow(w, j));
+    lemma_cong_mul(pow(w, j), pow(w, j), pow(w, m), -1);
+    assert(pow(w, j) * (-1) == -pow(w, j)) by (nonlinear_arith);
+    lemma_cong_sym(pow(w, j) * pow(w, m), -pow(w, j));
+}
+'''
+
+
+def unit_roots():
+    fp = open(os.path.join(REPO, 'src/fp.rs')).read()
+    mr = int(re.search(r'const MAX_ROOTS: usize = (\d+);', fp).group(1))
+    check_root_tables()
+    u = VUnit('root_powers', 'nth_root_powers(n)[k] == root(log2 n)^k for every power of two n within the root table')
+    u.oracle = {'inject': 'src/ntt.rs', 'file': 'ntt_oracle.rs', 'test': 'verif_oracle_ntt::oracle_ntt_contracts'}
+    u.raw('global size_of usize == 8;     // [assumption] 64-bit target\n' + FE_PRELUDE, 'abstract-field')
+    u.raw(MATH, 'math')
+    u.raw(ROOT_SHIMS.replace('%(MR)d', str(mr)), 'shims')
+    u.raw(ROOTPOW, 'root-powers')
+    u.item('src/polynomial.rs', ['fn nth_root_powers'], ret='r', attrs='#[verifier::loop_isolation(false)]',
+           rewrites=[(r'<F: NttFriendlyFieldElement>', '', 1), (r'Vec<F>', 'Vec<Fe>', 1), (r'\bF::zero\(\)', 'fe_zero()', 1), (r'\bF::one\(\)', 'fe_one()', 2),
+                     (r'\bF::root\(', 'fe_root(', 1),
+                     (r'usize::try_from\(log2\(n as u128\)\)\.unwrap\(\)', 'usize_try_from_u128(log2(n as u128)).unwrap()', 1),
+                     (r'assert_eq!\(n, 1 << log2_n\);', 'assert!(n == 1 << log2_n);', 1),
+                     (r'for i in 2\.\.=log2_n \{', 'for i in 2..log2_n + 1 {', 1),
+                     (r'for j in \(1\.\.mid\)\.rev\(\) \{', 'let mut k_: usize = mid; while k_ > 1 { k_ = k_ - 1; let j = k_;', 1),          # E4b
+                     (r'for j in \(3\.\.mid\)\.step_by\(2\) \{((?:[^{}])*)\}', r'let mut j: usize = 3; while j < mid {\1; j += 2; }', 1)],   # E4f
+           sig='''
+requires
+    // derived from the assert_eq! and the unwrap of F::root: a power of two within the root table
+    exists|d: nat| d <= MAX_ROOTS && n as int == pow2(d),
+ensures
+    r@.len() == n,
+    // roots[k] == w_n^k, w_n = root(log2 n)
+    forall|d: nat| n as int == pow2(d) ==> powers_ok(r@, d),
+''', ghost_before=[('let log2_n', 'let ghost d0 = choose|d0: nat| d0 <= MAX_ROOTS && n as int == pow2(d0);'), ('let mut k_: usize = mid', 'let ghost prev0 = roots@;')],
+           loops={0: '''
+invariant
+    roots@.len() == n, 2 <= i <= log2_n + 1, log2_n == d0, n > 1,
+    powers_ok(roots@, (i - 1) as nat),
+''', 1: '''
+invariant
+    roots@.len() == n, 1 <= k_ <= mid, mid as int == pow2((i - 1) as nat), 2 * mid <= n, 2 <= i <= log2_n, log2_n == d0,
+    forall|p: int| 0 <= p < 2 * k_ ==> #[trigger] roots@[p] == prev0[p],
+    forall|p: int| 2 * k_ <= p < 2 * mid && p % 2 == 0 ==> #[trigger] roots@[p] == prev0[p / 2],
+decreases k_
+''', 2: '''
+invariant
+    roots@.len() == n, mid as int == pow2((i - 1) as nat), 2 * mid <= n, 2 <= i <= log2_n, log2_n == d0, mid >= 2, mid % 2 == 0,
+    3 <= j, j % 2 == 1, fe_v(wn) == rootv(i as int),
+    forall|p: int| 0 <= p < 2 * mid && p % 2 == 0 ==> cong(fe_v(#[trigger] roots@[p]), pow(rootv(i as int), p as nat)),
+    forall|p: int| 0 <= p < j && p < mid && p % 2 == 1 ==> cong(fe_v(#[trigger] roots@[p]), pow(rootv(i as int), p as nat)),
+    forall|p: int| mid <= p < j + mid && p < 2 * mid && p % 2 == 1 ==> cong(fe_v(#[trigger] roots@[p]), pow(rootv(i as int), p as nat)),
+decreases mid + 2 - j
+'''},
+           before=[('let log2_n', '''
+    let dx = choose|dx: nat| dx <= MAX_ROOTS && n as int == pow2(dx);
+    lemma2_to64(); lemma_pow2_strictly_increases_or_eq(dx, 20); lemma_pow2_pos(dx);
+'''), ('roots', '''
+    assert forall|dd: nat| n as int == pow2(dd) implies dd == d0 by {
+        if dd < d0 { lemma_pow2_strictly_increases(dd, d0); }
+        if dd > d0 { lemma_pow2_strictly_increases(d0, dd); }
+    }
+''', -1), ('assert!(n == 1 << log2_n)', '''
+    lemma2_to64(); lemma_pow2_strictly_increases_or_eq(d0, 20); lemma_pow2_pos(d0);
+    // ceil(log2(2^d0)) == d0
+    if log2_n as int > d0 { lemma_pow2_strictly_increases_or_eq(d0, (log2_n - 1) as nat); }
+    if (log2_n as int) < d0 { lemma_pow2_strictly_increases(log2_n as nat, d0); }
+    lemma_shl_pow2(log2_n);
+'''), ('if n > 1', '''
+    broadcast use axiom_fe_mk, axiom_fe_range;
+    lemma_pow0(rootv(0)); lemma_cong_refl(1);
+    assert(powers_ok(roots@, 0)) by { assert(pow2(0) == 1); }
+'''), ('for i in 2..log2_n + 1', '''
+    // n > 1: the two square roots of one
+    assert(d0 >= 1) by { if d0 == 0 { assert(pow2(0) == 1); } }
+    axiom_roots(1);
+    lemma_pow1(rootv(1)); lemma_pow0(rootv(1));
+    assert(pow2(1) == 2);
+    assert(cong(fe_v(roots@[1]), -1)) by { lemma_cong_mod(-1); }
+    lemma_cong_sym(pow(rootv(1), 1), -1);
+    lemma_cong_trans(fe_v(roots@[1]), -1, pow(rootv(1), 1));
+    assert(powers_ok(roots@, 1));
+'''), ('let mid = 1 << (i - 1)', '''
+    lemma_shl_pow2((i - 1) as usize);
+    lemma_pow2_unfold(i as nat);
+    lemma_pow2_strictly_increases_or_eq(i as nat, d0);
+    lemma_pow2_pos((i - 2) as nat); lemma_pow2_unfold((i - 1) as nat);
+'''), ('roots[j << 1] = roots[j]', '''
+    assert((j << 1usize) == 2 * j) by (bit_vector) requires j < 0x1000_0000usize;
+'''), ('let wn = fe_root(i).unwrap()', '''
+    // after the spread: every even position below 2*mid holds its power of the new root
+    assert forall|p: int| 0 <= p < 2 * mid && p % 2 == 0 implies cong(fe_v(#[trigger] roots@[p]), pow(rootv(i as int), p as nat)) by {
+        let h = p / 2;
+        assert(roots@[p] == prev0[h]);
+        assert(cong(fe_v(prev0[h]), pow(rootv(i - 1), h as nat)));
+        lemma_root_pow_even(i as int, h as nat);
+        lemma_cong_trans(fe_v(roots@[p]), pow(rootv(i - 1), h as nat), pow(rootv(i as int), (2 * h) as nat));
+    }
+'''), ('let mut j: usize = 3', '''
+    broadcast use axiom_fe_mk, axiom_fe_range;
+    lemma_pow1(rootv(i as int));
+    lemma_c0(wn);
+    lemma_cong_mod(-fe_v(wn));
+    lemma_root_pow_half(i as int, 1);
+    lemma_cong_trans(fe_v(roots@[1 + mid as int]), -pow(rootv(i as int), 1), pow(rootv(i as int), (1 + mid) as nat));
+'''), ('roots[j] = wn * roots[j - 1]', '''
+    broadcast use axiom_fe_mk, axiom_fe_range;
+    let w = rootv(i as int);
+    let e = roots@[j - 1];
+    lemma_ops(wn, e);
+    lemma_c0(wn);
+    lemma_cong_mul(fe_v(wn), w, fe_v(e), pow(w, (j - 1) as nat));
+    lemma_pow_adds(w, 1, (j - 1) as nat); lemma_pow1(w);
+    lemma_cong_trans(fe_v(fe_mk(fe_v(wn) * fe_v(e))), fe_v(wn) * fe_v(e), pow(w, j as nat));
+    let nj = fe_mk(fe_v(wn) * fe_v(e));
+    lemma_cong_mod(-fe_v(nj));
+    lemma_cong_neg(fe_v(nj), pow(w, j as nat));
+    lemma_root_pow_half(i as int, j as nat);
+    lemma_cong_trans(fe_v(fe_mk(-fe_v(nj))), -fe_v(nj), -pow(w, j as nat));
+    lemma_cong_trans(fe_v(fe_mk(-fe_v(nj))), -pow(w, j as nat), pow(w, (j + mid) as nat));
+''')],
+           loop_tail={0: '''
+    // evens (spread), odds below mid (products), odds above mid (negations): all 2*mid powers of root(i)
+    assert(pow2(i as nat) == 2 * mid);
+    assert(powers_ok(roots@, i as nat));
+'''})
+    return u
